@@ -6,7 +6,7 @@ From Coq Require String.
 Import String.StringSyntax.
 Import ListNotations.
 From OV Require Import Base.Bytes Base.Utf8 Base.Cases Base.Tree Model.Csv Model.Fixed Model.Delim
-  Proofs.DelimUtf8 Proofs.DelimCsv Proofs.DelimFixed Proofs.DelimReaders Proofs.DelimLine Proofs.DelimCsv2 Proofs.DelimJump.
+  Proofs.DelimUtf8 Proofs.DelimCsv Proofs.DelimFixed Proofs.DelimReaders Proofs.DelimLine Proofs.DelimCsv2 Proofs.DelimJump Proofs.DelimValid.
 Local Open Scope string_scope.
 Local Open Scope list_scope.
 
@@ -22,11 +22,26 @@ Theorem fixed_slice_spec : forall start_pos len line,
   rune_slice start_pos len line = concat (firstn len (skipn (start_pos - 1) (chunks line))).
 Proof. exact fixed_slice_spec. Qed.
 
+(* on valid UTF-8 (utf8.Valid) the slice is the re-encoding of the runes [start_pos, start_pos+length)
+   of []rune(line) *)
+Theorem fixed_slice_valid : forall start_pos len line, utf8_valid line = true ->
+  rune_slice start_pos len line = encode_runes (firstn len (skipn (start_pos - 1) (runes line))).
+Proof. exact fixed_slice_valid_proof. Qed.
+
+(* the bytes DecodeRune consumes are the encoding of the rune it returns, unless it reports
+   (RuneError, 1): complete sweeps over lead and continuation bytes *)
+Theorem decode_then_encode : forall b0 rest,
+  is_error_step (decode_rune (b0 :: rest)) = false ->
+  firstn (snd (decode_rune (b0 :: rest))) (b0 :: rest) = encode_rune (fst (decode_rune (b0 :: rest))).
+Proof. exact decode_then_encode. Qed.
+
 Example fixed_slice_nonvacuous :
   rune_slice 2 3 (hx "61c3a9e697a5ff62") = hx "c3a9e697a5ff"        (* a é 日 \xff b : [2,5) *)
   /\ rune_slice 5 9 (hx "61c3a9e697a5ff62") = hx "62"                 (* reaches past the end *)
-  /\ rune_slice 9 2 (hx "61c3a9e697a5ff62") = [].                     (* entirely past the end *)
-Proof. vm_compute. auto. Qed.
+  /\ rune_slice 9 2 (hx "61c3a9e697a5ff62") = []                      (* entirely past the end *)
+  /\ utf8_valid (hx "61c3a9e697a5f09f988062") = true
+  /\ rune_slice 2 3 (hx "61c3a9e697a5f09f988062") = encode_runes [233; 26085; 128512]%N.
+Proof. vm_compute. auto 6. Qed.
 
 (* ---- csv: the RFC reader reads back every table the encoder writes ----------------------------- *)
 (* for all delimiters encoding/csv accepts (any valid rune except NUL, the double quote, CR, LF, U+FFFD), all
